@@ -78,8 +78,19 @@ TEnd == /\ IsEvent("End") /\ mpc = "done" /\ ~Busy /\ Ev.t >= now
         /\ CheckInv("EventMissingBeforeEnd", IF Future = {} THEN TRUE ELSE MinOf(Future) > Ev.t)
         /\ UNCHANGED vars
 
+\* Which of several equal-order hooks the sorted slice holds next is not logged.  It only shows in (a) which synchronous
+\* hook is entered next -- the next Enter event of a synchronous hook names it -- and (b) whether an asynchronous hook was
+\* launched at all before the loop ended (it then enters at once: it has an Enter event ahead).  The order in which
+\* asynchronous hooks of equal order are launched shows nowhere: the least id stands for all orders.
+Ahead(h) == \E i \in l..TLen : Trace[i].ev = "Enter" /\ Trace[i].kind = "start" /\ Trace[i].id = h
+NextSync == LET S == {i \in l..TLen : Trace[i].ev = "Enter" /\ Trace[i].kind = "start" /\ Trace[i].id \in DOMAIN starts /\ ~Async(Trace[i].id)}
+            IN IF S = {} THEN 0 ELSE Trace[MinOf(S)].id
+Picks == LET C == NextOf(todoS, starts, "asc")
+             A == {h \in C : Async(h) /\ Ahead(h)}
+             B == {h \in C : starts[h].typ = "bad"}
+         IN (IF A = {} THEN {} ELSE {MinOf(A)}) \cup (C \cap {NextSync}) \cup (IF B = {} THEN {} ELSE {MinOf(B)})
 TTick == Tick /\ Silent /\ l <= TLen /\ Has(Ev, "t") /\ now' <= Ev.t
-TSilent == /\ \/ LoopCheck \/ Launch \/ SyncHandle \/ Await \/ StopLoopEnd \/ HandleStop \/ Deadline
+TSilent == /\ \/ LoopEnd \/ (\E h \in Picks : LoopPick(h)) \/ Launch \/ SyncHandle \/ Await \/ StopLoopEnd \/ HandleStop \/ Deadline
               \/ \E h \in DOMAIN hs : AsyncHandle(h)
            /\ Silent
 TraceNext == TReset \/ TCancel \/ TRun \/ TLate \/ TEnter \/ TExit \/ TRet \/ TEnd \/ TTick \/ TSilent
